@@ -228,6 +228,20 @@ def generate(rng, n, tier="quick"):
         c, m = gen_case(rng.fork(i), i)
         c["id"] = "%s-%06d" % (ID, i)
         out.append((c, m))
+    # the family of the Lean theorem C13.literal_argument_reaches_the_helper: L ++ {{name 1}} ++ R for any helper name (an identifier
+    # of the grammar), the helper being the one that writes its first argument as JSON text: the closed form L ++ "1" ++ R (exact)
+    from .C03 import _no_open, rand_text, thm_left
+    from .C02 import ident_name
+    tr = rng.fork("thm")
+    for k in range(60 if tier == "quick" else 2000):
+        r = tr.fork(k)
+        L = thm_left(r)
+        R = _no_open(rand_text(r, r.range(0, 8)))
+        nm = ident_name(r)
+        c = session({"escape": r.pick(["none", "html", "mark"]), "helpers": [{"name": nm, "kind": "wr"}]}, [],
+                    {"api": "render_template", "src": L + "{{%s 1}}" % nm + R}, {})
+        c["id"] = "C13-thm%05d" % k
+        out.append((c, {"expect": L + "1" + R, "form": "thm", "tpl": L + "{{%s 1}}" % nm + R}))
     cfg = {"escape": "none", "helpers": [{"name": "pr", "kind": "probe"}, {"name": "id", "kind": "vret"}, {"name": "mk", "kind": "mark", "tag": "M"}]}
     # listed witnesses
     c = session(cfg, [], {"api": "render_template", "src": "{{pr ['a']}}"}, {})
@@ -276,6 +290,10 @@ def num_eq(a, b):
 
 def oracle(case, meta, impl):
     l = last(impl)
+    if meta["form"] == "thm":
+        if l.get("r") == "ok" and l.get("out") == meta["expect"]:
+            return []
+        return ["literal argument (theorem family): expected %r got %r for %r" % (meta["expect"], l.get("out", l.get("reason", l.get("r"))), meta["tpl"])]
     if meta["form"] == "once":
         if l.get("r") != "ok":
             return None
